@@ -5,7 +5,8 @@
    whether the file parses.  The space is grown as a tree so that the workers share it. *)
 EXTENDS Lex, Grammar, Json
 
-CONSTANTS MaxLen, MaxLenIndent
+CONSTANTS MaxLen, MaxLenIndent,
+          MaxLines, MaxWidth     \* "shape" mode: up to MaxLines lines, each indented by 0..MaxWidth blanks
 VARIABLES s, m
 
 Alphabet == {" ","\t","\n","\r","#","(",")","[","]","{","}","'","\"","\\","a","f","r","b","0","1",
@@ -24,8 +25,17 @@ Mutations ==
 \* inconsistent dedent, blank and comment lines, brackets spanning lines)
 IndentAlphabet == {" ","\n","a","#","(",")"}
 
+\* a third space: indentation SHAPES -- every sequence of up to MaxLines lines `<w blanks> a LF` (the
+\* last one optionally without its LF) with w in 0..MaxWidth: reaches three and four open levels and
+\* every dedent to, between and below them
+Blanks(w) == [i \in 1..w |-> " "]
+Lines(t) == Cardinality({i \in 1..Len(t) : t[i] = "\n"})
+
 Init == s = <<>> /\ m = "root"
-Next == \/ m = "root" /\ s' = s /\ m' \in {"all","indent"}
+Next == \/ m = "root" /\ s' = s /\ m' \in {"all","indent","shape"}
+        \/ m = "shape" /\ Lines(s) < MaxLines /\ (IF s = <<>> THEN TRUE ELSE s[Len(s)] = "\n") /\ m' = m
+                       /\ \E w \in 0..MaxWidth : \E nl \in BOOLEAN :
+                              s' = s \o Blanks(w) \o <<"a">> \o (IF nl THEN <<"\n">> ELSE <<>>)
         \/ m = "all" /\ Len(s) < MaxLen /\ m' = m /\ \E c \in Alphabet : s' = Append(s, c)
         \/ m = "indent" /\ Len(s) < MaxLenIndent /\ m' = m /\ \E c \in IndentAlphabet : s' = Append(s, c)
 
